@@ -2,6 +2,7 @@ SPECIFICATION SSpec
 CONSTANTS
   Acc = {"a", "b", "c", "d"}
   Members = {"a", "b", "c", "d"}
+  MaxJoins = 2
   MaxMsgs = 2
   MaxFaults = 2
   MaxOpen = 1
